@@ -1,5 +1,6 @@
 import Lean.Data.Json
 import Upf.Model.AgentMod
+import Upf.Model.Digest
 import Upf.Model.NewPool
 import Check.Util
 /-!
@@ -29,6 +30,10 @@ structure St where
   seenResidue : List String := []
   /-- sessions whose QERs were re-labelled by a modification (their leftovers are that defect's consequence) -/
   relabelled : List Nat := []
+  /-- sessions for which a downlink-data notification was already forwarded (inside the 20 s interval of the run) -/
+  notified : List Nat := []
+  /-- largest sequence number of an agent-originated request seen so far, per association -/
+  lastSeq : List (Nat × Nat) := []
 
 def getNat (j : Json) (k : String) : Nat := ((j.getObjVal? k).toOption.bind (·.getNat?.toOption)).getD 0
 def getNat? (j : Json) (k : String) : Option Nat := (j.getObjVal? k).toOption.bind (·.getNat?.toOption)
@@ -363,6 +368,33 @@ def step (st : St) (_n : Nat) (line : String) : St × List Finding :=
         (if getNat so "gauge" != live.length then
           [⟨"C05", s!"the pfcp_sessions gauge reads {getNat so "gauge"} with {live.length} live sessions"⟩] else []) ++
         (if st.w.pool.isSome ∧ getNat so "pool_held" != modelHeld then [⟨"model", s!"pool holds {getNat so "pool_held"}, model {modelHeld}"⟩] else [])) ++ tf)
+    | "ddn" =>
+      let a := getNat j "a"
+      let seid := getNat j "seid"
+      let reports := (getArr obs "reports").map arrNats
+      let sess := (st.w.conn a).sessions.find? (·.lseid = seid)
+      -- the first association in the node's map receives the report (multi-association routing is documented as unimplemented)
+      let want : Option (Nat × Nat) := if st.notified.contains seid then none else sess.bind digestReport
+      let last := ((st.lastSeq.find? (·.1 = a)).map (·.2)).getD 0
+      let st' := { st with notified := if st.notified.contains seid then st.notified else seid :: st.notified,
+                           lastSeq := match reports.getLast? with
+                             | some [_, _, sq, _] => (a, sq) :: st.lastSeq.filter (·.1 ≠ a)
+                             | _ => st.lastSeq }
+      let fs : List Finding :=
+        if !getBool obs "alive" then [⟨"C01", "agent died or wedged on a downlink-data report"⟩] else
+        match want, reports with
+        | none, [] => []
+        | none, _ =>
+          if sess.isNone then [⟨"C13", s!"a Session Report Request was sent for unknown session {seid}"⟩]
+          else if st.notified.contains seid then [⟨"C13", "a second notification for the session was forwarded inside the notification interval"⟩]
+          else [⟨"C13", "a Session Report Request was sent although the session's downlink rule does not ask for notification (or it has no downlink PDR)"⟩]
+        | some _, [] => [⟨"C13", s!"the first downlink-data report for session {seid} produced no Session Report Request"⟩]
+        | some (rseid, pid), [[hs, pdr, sq, dldr]] =>
+          (if hs != rseid then [⟨"C13", s!"Session Report Request addressed to SEID {hs}, the control plane's SEID is {rseid}"⟩] else []) ++
+          (if pdr != pid ∨ dldr != 1 then [⟨"C13", s!"Downlink Data Report names PDR {pdr} (DLDR flag {dldr}), the session's first downlink PDR is {pid}"⟩] else []) ++
+          (if sq ≤ last then [⟨"C13", s!"sequence number {sq} is not fresh (an earlier agent-originated request used {last})"⟩] else [])
+        | some _, rs => [⟨"C13", s!"{rs.length} Session Report Requests for one downlink-data report"⟩]
+      (st', fs)
     | "note" => (st, [])
     | k => (st, [⟨"bad", s!"unknown event {k}"⟩])
 
